@@ -130,6 +130,12 @@ public:
      */
     std::size_t calculateHash(const std::string &toolinfo) const;
 
+    /**
+     * Is there an include directive whose header name is the result of a macro expansion (#include MACRO)?
+     * Such a header is only known (and loaded) when the code is preprocessed so it is not covered by calculateHash().
+     */
+    bool hasComputedIncludes() const;
+
     void simplifyPragmaAsm();
 
     static void getErrorMessages(ErrorLogger &errorLogger, const Settings &settings);
